@@ -542,7 +542,11 @@ var mutationNames = []string{"none", "file deleted", "file unparsable", "lines i
 	// what was compiled
 	"receiver list emptied", "two receivers", "receiver dropped", "receiver added", "value receiver", "parameters unnamed", "type parameters added", "last parameter variadic", "parameters retyped exotically", "body moved into a closure", "parameters grouped",
 	// one file of the two only
-	"only b.go deleted", "only main.go deleted", "only b.go unparsable", "only main.go unparsable"}
+	"only b.go deleted", "only main.go deleted", "only b.go unparsable", "only main.go unparsable",
+	// another arity and types the analysis does not decode at the same time (more parameters
+	// than the binary printed values, words still left when the odd type comes up)
+	"parameter added and scalars retyped exotically", "two parameters added and scalars retyped exotically",
+	"strings and slices declared as separate ints, scalars as bytes"}
 
 // goneFile tells whether the mutation kind leaves the named source file missing or
 // unparsable - the two cases in which its frames must stay unaugmented altogether.
@@ -580,31 +584,31 @@ func mutateSource(name, src string, kind int) (string, bool) {
 	case 3:
 		return strings.Replace(src, "\nvar _ = math.Pi", strings.Repeat("\n// shifted", 57)+"\nvar _ = math.Pi", 1), true
 	case 4:
-		return regexp.MustCompile(`(func (\(t \*[TU]\) )?(?:c\d+f\d+|run\d+)\()`).ReplaceAllString(src, "${1}extra0 string, "), true
+		return regexp.MustCompile(`(func (\((?:t |_ )?\*[TU]\) )?(?:c\d+f\d+|run\d+)\()`).ReplaceAllString(src, "${1}extra0 string, "), true
 	case 5:
-		return regexp.MustCompile(`(func (\(t \*[TU]\) )?(?:c\d+f\d+|run\d+)\()p0 [^,)]+,? ?`).ReplaceAllString(src, "${1}"), true
+		return regexp.MustCompile(`(func (\((?:t |_ )?\*[TU]\) )?(?:c\d+f\d+|run\d+)\()p0 [^,)]+,? ?`).ReplaceAllString(src, "${1}"), true
 	case 6:
 		return regexp.MustCompile(`p(\d+) (int|uint8|bool|string|float64)([,)])`).ReplaceAllString(src, "p${1} []string${3}"), true
 	case 7:
-		return regexp.MustCompile(`func (\(t \*[TU]\) )?(c\d+f|run)(\d+)\(`).ReplaceAllString(src, "func ${1}renamed${2}x${3}("), true
+		return regexp.MustCompile(`func (\((?:t |_ )?\*[TU]\) )?(c\d+f|run)(\d+)\(`).ReplaceAllString(src, "func ${1}renamed${2}x${3}("), true
 	case 8:
 		return "package other\n\nfunc Unrelated(a, b, c, d, e, f, g, h interface{}) {\n}\n", true
 	case 9:
 		return src[:len(src)/3], true
 	case 10:
-		return regexp.MustCompile(`func \(t \*[TU]\) `).ReplaceAllString(src, "func () "), true
+		return regexp.MustCompile(`func \((?:t |_ )?\*[TU]\) `).ReplaceAllString(src, "func () "), true
 	case 11:
-		return regexp.MustCompile(`func \(t \*([TU])\) `).ReplaceAllString(src, "func (t, u *${1}) "), true
+		return regexp.MustCompile(`func \((?:t |_ )?\*([TU])\) `).ReplaceAllString(src, "func (t, u *${1}) "), true
 	case 12:
-		return regexp.MustCompile(`func \(t \*[TU]\) `).ReplaceAllString(src, "func "), true
+		return regexp.MustCompile(`func \((?:t |_ )?\*[TU]\) `).ReplaceAllString(src, "func "), true
 	case 13:
 		return regexp.MustCompile(`func (c\d+f\d+)\(`).ReplaceAllString(src, "func (t *T) ${1}("), true
 	case 14:
-		return regexp.MustCompile(`func \(t \*([TU])\) `).ReplaceAllString(src, "func (t ${1}) "), true
+		return regexp.MustCompile(`func \((?:t |_ )?\*([TU])\) `).ReplaceAllString(src, "func (t ${1}) "), true
 	case 15:
 		return regexp.MustCompile(`([(,] ?)p\d+ `).ReplaceAllString(src, "${1}"), true
 	case 16:
-		return regexp.MustCompile(`func (\(t \*[TU]\) )?(c\d+f\d+|run\d+)\(`).ReplaceAllString(src, "func ${1}${2}[X any, Y comparable]("), true
+		return regexp.MustCompile(`func (\((?:t |_ )?\*[TU]\) )?(c\d+f\d+|run\d+)\(`).ReplaceAllString(src, "func ${1}${2}[X any, Y comparable]("), true
 	case 17:
 		return regexp.MustCompile(`(p\d+) ([^,()]+)\) \{`).ReplaceAllString(src, "${1} ...${2}) {"), true
 	case 18:
@@ -618,6 +622,19 @@ func mutateSource(name, src string, kind int) (string, bool) {
 		return regexp.MustCompile(`\) \{\n\t(defer )?([^\n]+)\n\}`).ReplaceAllString(src, ") {\n\tfunc(q0 string, q1 []int) { ${2} }(\"\", nil)\n}"), true
 	case 20:
 		return regexp.MustCompile(`p(\d+) ([^,()]+), p(\d+) ([^,()]+)([,)])`).ReplaceAllString(src, "p${1}, p${3} ${4}${5}"), true
+	case 25:
+		exotic, _ := mutateSource(name, src, 18)
+		return mutateSource(name, exotic, 4)
+	case 27:
+		// built f(s []int, x int), now f(sa, sb, sc int, x byte): the ints use up the slice's
+		// words, and the byte - a type that is not decoded - comes at an index the binary
+		// printed no top-level value for
+		out := regexp.MustCompile(`p(\d+) (?:int|uint|bool|float32|float64|u?int(?:8|16|32|64)|uintptr)([,)])`).ReplaceAllString(src, "p${1} byte${2}")
+		out = regexp.MustCompile(`p(\d+) \[\][a-z0-9]+([,)])`).ReplaceAllString(out, "p${1}a, p${1}b, p${1}c int${2}")
+		return regexp.MustCompile(`p(\d+) string([,)])`).ReplaceAllString(out, "p${1}a, p${1}b int${2}"), true
+	case 26:
+		exotic, _ := mutateSource(name, src, 18)
+		return regexp.MustCompile(`(func (\((?:t |_ )?\*[TU]\) )?(?:c\d+f\d+|run\d+)\()`).ReplaceAllString(exotic, "${1}extra0 string, extra1 []int, "), true
 	}
 	return src, true
 }
